@@ -172,4 +172,9 @@ VmString *vm_string_from_int(VmHeap *heap, int64_t v);
 VmString *vm_string_from_float(VmHeap *heap, double v);
 VmString *vm_string_from_bool(VmHeap *heap, bool v);
 
+#ifdef NANOLANG_VERIF
+/* Verification hook (h2): live-object registry callback. event 1 = object allocated, 0 = object about to be freed. */
+extern void (*vm_verif_heap_cb)(int event, void *obj, uint8_t obj_type);
+#endif
+
 #endif /* NANOVM_HEAP_H */
